@@ -176,7 +176,12 @@ def S (t : String) : Piece := .s t
 
 /-! the operator and function spellings are regenerated from the renderer's `match` tables on every
 run (`Gen/Spell`, seaq-translate group `spell`) -/
-export SeaQ.Gen.Spell (binOpCommon binOpPg binOpSqlite fnPg)
+export SeaQ.Gen.Spell (binOpCommon binOpPg binOpSqlite fnPg joinKw lockKw lockBehaviorKw subOpKw keywordKw)
+
+/-- a keyword read from a regenerated table; a variant the table does not spell renders nothing and marks the statement -/
+def kwPiece : Option String → Pieces
+  | some t => [S t]
+  | none => [.bad]
 
 /-- `prepare_bin_oper` -/
 def rOp (d : Backend) : Op → Pieces
@@ -208,18 +213,18 @@ def rFn (d : Backend) : Fn → Pieces
 
 /-- `prepare_keyword` -/
 def rKw : Kw → Pieces
-  | .null => [S "NULL"]
-  | .currentDate => [S "CURRENT_DATE"]
-  | .currentTime => [S "CURRENT_TIME"]
-  | .currentTimestamp => [S "CURRENT_TIMESTAMP"]
+  | .null => kwPiece (keywordKw 0)
+  | .currentDate => kwPiece (keywordKw 1)
+  | .currentTime => kwPiece (keywordKw 2)
+  | .currentTimestamp => kwPiece (keywordKw 3)
   | .custom s => [.raw s.toList]
 
 /-- `prepare_sub_query_oper` -/
 def rSubOp (d : Backend) : SubOp → Pieces
-  | .exists => [S "EXISTS"]
-  | .any => if d == .sqlite then [.bad] else [S "ANY"]
-  | .some => if d == .sqlite then [.bad] else [S "SOME"]
-  | .all => if d == .sqlite then [.bad] else [S "ALL"]
+  | .exists => kwPiece (subOpKw 0)
+  | .any => if d == .sqlite then [.bad] else kwPiece (subOpKw 1)
+  | .some => if d == .sqlite then [.bad] else kwPiece (subOpKw 2)
+  | .all => if d == .sqlite then [.bad] else kwPiece (subOpKw 3)
 
 /-- `prepare_column_ref` -/
 def rColRef : ColRef → Pieces
@@ -263,11 +268,8 @@ def rValueRows (d : Backend) : Bool → List (List Val) → Pieces
       rVals true row ++ [S ")"] ++ rValueRows d false r
 
 /-- `prepare_join_type` -/
-def rJoinType (d : Backend) : Nat → Pieces
-  | 0 => [S "JOIN"] | 1 => [S "CROSS JOIN"] | 2 => [S "INNER JOIN"] | 3 => [S "LEFT JOIN"]
-  | 4 => [S "RIGHT JOIN"]
-  | 5 => if d == .mysql then [.bad] else [S "FULL OUTER JOIN"]
-  | _ => [.bad]
+def rJoinType (d : Backend) (n : Nat) : Pieces :=
+  if d == .mysql && n == 5 then [.bad] else kwPiece (joinKw n)
 
 def rUnionKw : Nat → String
   | 0 => " INTERSECT " | 1 => " UNION " | 2 => " EXCEPT " | _ => " UNION ALL "
@@ -311,12 +313,16 @@ def rSample (s : Sample) : Pieces :=
   [S (if s.method == 0 then " TABLESAMPLE BERNOULLI" else " TABLESAMPLE SYSTEM"), S " (", .raw s.pct.toList, S ")"] ++
     (match s.rep with | some r => [S " REPEATABLE (", .raw r.toList, S ")"] | none => [])
 
+def rLockBehavior : Option Nat → Pieces
+  | some b => kwPiece (lockBehaviorKw b)
+  | none => []
+
 /-- `prepare_select_lock` (SQLite: nothing) -/
 def rLock (d : Backend) (l : Lock) : Pieces :=
   if d == .sqlite then [] else
-    [S (match l.ty with | 0 => "FOR UPDATE" | 1 => "FOR NO KEY UPDATE" | 2 => "FOR SHARE" | _ => "FOR KEY SHARE")] ++
+    [S "FOR "] ++ kwPiece (lockKw l.ty) ++
       (if l.tables.isEmpty then [] else [S " OF "] ++ rTNames true l.tables) ++
-      (match l.behavior with | some 0 => [S " NOWAIT"] | some _ => [S " SKIP LOCKED"] | none => [])
+      rLockBehavior l.behavior
 
 def rOrderKw : OrderKind → Pieces
   | .asc => [S " ASC"]
